@@ -17,6 +17,6 @@ INIT Init
 NEXT Next
 VIEW View
 SYMMETRY Sym
-INVARIANTS TypeOK EncodingConsistent KeysWellPlaced PeekNeverWrong PeekNeverAfterDeadline PeekBoundedStaleness
+INVARIANTS TypeOK EncodingConsistent KeysWellPlaced PkIsPeek PeekNeverWrong PeekNeverAfterDeadline PeekBoundedStaleness
 PROPERTIES NeverWrong NeverAfterDelete NeverAfterDeadline NeverCorrupt ReadIsPeek NoAlias AddSemantics ReadYourWrites DeleteRemoves
 CHECK_DEADLOCK FALSE
